@@ -63,3 +63,95 @@ Definition unaggregated_rows (P : crs) : list nat :=
   map fst (filter (fun ir => match snd ir with [] => true | _ => false end) (indexed (rows P))).
 
 End Oracles.
+
+(* ====================================================================
+   Rank-lifted CG.
+
+   Every rank runs its own copy of the solver of amgcl/solver/cg.hpp (model: Krylov.cg) on
+   its slices of the vectors; the only things that couple the ranks are
+     - the distributed operator  [Aw]  and preconditioner [Pw] (functions of the whole world's
+       vectors: they communicate), and
+     - mpi::inner_product = local Kahan sum + MPI_Allreduce ([dist_inner_product], which
+       hands every rank its own copy of the reduced value).
+   The world state is kept as a structure of per-rank lists: [w_x w] is the list of the
+   ranks' slices of x, [w_rho1 w] the list of the ranks' private copies of rho1, [w_it w]
+   the ranks' private iteration counters, ...  Every rank evaluates the loop condition on ITS
+   OWN copies; if the ranks disagree, some of them would enter a collective the others never
+   call: the model returns [None] ("stuck").  *)
+From Amgcl Require Import Krylov.
+From Coq Require Import QArith_base.
+Local Close Scope Q_scope.
+Local Open Scope S_scope.
+
+Section RankLifted.
+Context {S : Scalar}.
+Local Notation vec := (vec S).
+Variables Aw Pw : list vec -> list vec.
+
+Record wcg := mkWcg {
+  w_x : list vec; w_r : list vec; w_s : list vec; w_p : list vec; w_q : list vec;
+  w_rho1 : list S; w_rho2 : list S; w_res : list S; w_it : list nat }.
+
+(* norm_a on every rank: sqrt(norm(inner_product(x, x))) with the reduced inner product *)
+Definition dist_norm_a (xs : list vec) : list S :=
+  map (fun v => ssqrt (sabs v)) (dist_inner_product xs xs).
+
+Definition wcg_step (w : wcg) : wcg :=
+  let ss := Pw (w_r w) in
+  let rho2s := w_rho1 w in
+  let rho1s := dist_inner_product (w_r w) ss in
+  let ps := map2 (fun (c : nat * (S * S)) (sp : vec * vec) =>
+                    if Nat.eqb (fst c) 0 then fst sp
+                    else k_axpby s1 (fst sp) (fst (snd c) / snd (snd c)) (snd sp))
+                 (combine (w_it w) (combine rho1s rho2s)) (combine ss (w_p w)) in
+  let qs := Aw ps in
+  let alphas := map2 (fun rho1 qp => rho1 / qp) rho1s (dist_inner_product qs ps) in
+  let xs := map2 (fun a (px : vec * vec) => k_axpby a (fst px) s1 (snd px)) alphas (combine ps (w_x w)) in
+  let rs := map2 (fun a (qr : vec * vec) => k_axpby (- a) (fst qr) s1 (snd qr)) alphas (combine qs (w_r w)) in
+  mkWcg xs rs ss ps qs rho1s rho2s (dist_norm_a rs) (map Datatypes.S (w_it w)).
+
+(* each rank's own loop test: iter < maxiter && norm(res) > eps *)
+Definition wcg_conts (maxiter : nat) (epss : list S) (w : wcg) : list bool :=
+  map2 (fun (c : nat * S) eps => Nat.ltb (fst c) maxiter && sltb eps (sabs (snd c)))
+       (combine (w_it w) (w_res w)) epss.
+
+Fixpoint wcg_loop (maxiter : nat) (epss : list S) (fuel : nat) (w : wcg) : option wcg :=
+  match fuel with
+  | O => Some w
+  | Datatypes.S k =>
+    let cs := wcg_conts maxiter epss w in
+    if forallb (fun b => b) cs then wcg_loop maxiter epss k (wcg_step w)
+    else if forallb negb cs then Some w
+    else None                      (* the ranks disagree: deadlock in the next collective *)
+  end.
+
+(* the prologue on every rank (norm_rhs from the reduced inner product) *)
+Definition w_prologue (prm : @kprm S) (fs : list vec) : list (@prologue S) :=
+  map (fun nr => if sltb nr eps1 then (if p_ns prm then Go s1 else Trivial nr) else Go nr) (dist_norm_a fs).
+
+Definition is_go (p : @prologue S) : bool := match p with Go _ => true | Trivial _ => false end.
+Definition pro_val (p : @prologue S) : S := match p with Go v => v | Trivial v => v end.
+
+Definition wcg_init (prm : @kprm S) (nrs : list S) (fs xs0 : list vec) (junk : wcg) : list S * wcg :=
+  let epss := map (fun nr => smax (p_tol prm * nr) (p_abstol prm)) nrs in
+  let rs := map2 k_residual fs (Aw xs0) in
+  (epss, mkWcg xs0 rs (w_s junk) (w_p junk) (w_q junk)
+               (map (fun eps => (sofQ (2 # 1)%Q * eps) * s1) epss)
+               (map (fun _ => s0) epss) (dist_norm_a rs) (map (fun _ => 0%nat) epss)).
+
+(* per-rank result: (iters, residual, slice of x), or None when the ranks would diverge *)
+Definition wcg_run (prm : @kprm S) (fs xs0 : list vec) (junk : wcg) : option (list (@kres S)) :=
+  let pros := w_prologue prm fs in
+  if forallb is_go pros then
+    let nrs := map pro_val pros in
+    let '(epss, w0) := wcg_init prm nrs fs xs0 junk in
+    match wcg_loop (p_maxiter prm) epss (p_maxiter prm) w0 with
+    | None => None
+    | Some w => Some (map2 (fun (c : nat * (S * S)) x => mkRes (fst c) (fst (snd c) / snd (snd c)) x false)
+                           (combine (w_it w) (combine (w_res w) nrs)) (w_x w))
+    end
+  else if forallb (fun p => negb (is_go p)) pros then
+    Some (map2 (fun p x => mkRes 0 (pro_val p) (k_clear x) false) pros xs0)
+  else None.
+
+End RankLifted.
